@@ -17,6 +17,76 @@ _path_state = {'reach': False}
 
 def _path_reset():
     _path_state['reach'] = False
+    restore_library_state()
+
+
+# Every explored path stands for a call made on a freshly imported library.  The paths of a
+# cell run one after the other in one process, so module-level and class-level containers of
+# the yaml package (constructor / representer / resolver tables and anything a change to the
+# library may add next to them) are put back, in place, to what they were when the worker
+# finished importing the harness.  Without this a change that leaves state on a class is seen
+# by the first path only and then hides behind itself.
+_LIB_BASE = None
+_YAML_MODULES = ('yaml', 'yaml.reader', 'yaml.scanner', 'yaml.parser', 'yaml.composer', 'yaml.constructor', 'yaml.resolver', 'yaml.representer',
+                 'yaml.serializer', 'yaml.emitter', 'yaml.loader', 'yaml.dumper', 'yaml.cyaml', 'yaml.nodes', 'yaml.events', 'yaml.tokens', 'yaml.error')
+
+
+def _copy1(v):
+    """copy of a container, and of the lists / dicts directly inside it"""
+    inner = lambda x: list(x) if type(x) is list else dict(x) if type(x) is dict else x
+    if isinstance(v, dict):
+        return {k: inner(x) for k, x in v.items()}
+    if isinstance(v, list):
+        return [inner(x) for x in v]
+    return set(v)
+
+
+def snapshot_library_state():
+    global _LIB_BASE
+    import sys
+    owners, conts = [], []
+    seen = set()
+    for mname in _YAML_MODULES:
+        mod = sys.modules.get(mname)
+        if mod is None:
+            continue
+        for name, v in list(vars(mod).items()):
+            if name.startswith('__'):
+                continue
+            if type(v) in (dict, list, set) and id(v) not in seen:
+                seen.add(id(v))
+                conts.append((v, _copy1(v)))
+            elif isinstance(v, type) and (v.__module__ or '').startswith('yaml') and id(v) not in seen:
+                seen.add(id(v))
+                owners.append((v, set(vars(v).keys())))
+                for an, av in list(vars(v).items()):
+                    if type(av) in (dict, list, set) and id(av) not in seen:
+                        seen.add(id(av))
+                        conts.append((av, _copy1(av)))
+    _LIB_BASE = (owners, conts)
+
+
+def restore_library_state():
+    if _LIB_BASE is None:
+        return
+    owners, conts = _LIB_BASE
+    for cls, names in owners:
+        for an in [a for a in vars(cls).keys() if a not in names]:
+            if type(vars(cls)[an]) in (dict, list, set):
+                try:
+                    delattr(cls, an)
+                except Exception:
+                    pass
+    for obj, saved in conts:
+        fresh = _copy1(saved)
+        if isinstance(obj, dict):
+            obj.clear()
+            obj.update(fresh)
+        elif isinstance(obj, list):
+            obj[:] = fresh
+        else:
+            obj.clear()
+            obj.update(fresh)
 
 
 def reach():
